@@ -357,7 +357,9 @@ class Binding(object):
                     content.append(deepcopy(header))
                     continue
                 if len(pts) == n:
-                    break
+                    # more plain values than declared header parts: nothing
+                    # to build them from (ready-made elements still go out)
+                    continue
                 add(pts[n], header)
                 n += 1
         else:
